@@ -138,12 +138,14 @@ def run(tier):
                     try:
                         live = walk_fs(f)
                     except Exception as e:  # noqa
-                        res.fail(["C07"], "foreign:walk-raises:%s:%s%s" % (exc_class(e), "debris" if debris else "clean", hi),
+                        res.fail(["C07"], ("foreign:reserved-range-clusters-rejected" + hi) if high else
+                                 "foreign:walk-raises:%s:%s" % (exc_class(e), "debris" if debris else "clean"),
                                  "walking a valid volume raised %s (lazy=%s)" % (exc_class(e), lazy), rep)
                         break
                     d = diff_walks(walk_spec(tree), live, "builder", "pyfatfs")
                     if d:
-                        res.fail(["C07"], "foreign:tree:%s:%s%s" % (d[0][0], "debris" if debris else "clean", hi),
+                        res.fail(["C07"], ("foreign:reserved-range-clusters-rejected" + hi) if high else
+                                 "foreign:tree:%s:%s" % (d[0][0], "debris" if debris else "clean"),
                                  "lazy=%s: %s" % (lazy, d[:3]), rep)
                         break
                 finally:
